@@ -20,8 +20,8 @@ func init() {
 			"R3 SetEdns0 clears opt.Option on every path of the OPT arm before the only re-attachment (the policy-clamped ECS); " +
 			"R4 every dns.Msg allocated in middleware/…, server/…, internal/dnsutil and written (or returned to a writer) has Id, QR and opcode set from the request (SetReply family or explicit header image), " +
 			"wire bodies committed by producers cross wire.ApplyReply(body, req id, req opcode, …), DoQ zeroes the Id before packing; " +
-			"R5 acceptHeader ≡ miekg/dns defaultMsgAcceptFunc as a decision table over the header predicates, the three engine entry points compare the verdict with every acceptVerdict constant, " +
-			"serve only on OK, stay silent on Ignore, reject in place otherwise; rejectInPlace echoes ID/opcode/RD and sets QR; QDCOUNT != 1 → FORMERR before the chain; BADVERS / foreign opcode arms never continue the chain; " +
+			"R5 acceptHeader ≡ miekg/dns defaultMsgAcceptFunc as a decision table over the header predicates, each engine entry point, interpreted with the verdict fixed to every acceptVerdict constant, " +
+			"serves only on OK, stays silent on Ignore and rejects in place on every other verdict; rejectInPlace echoes ID/opcode/RD and sets QR; QDCOUNT != 1 → FORMERR before the chain; BADVERS / foreign opcode arms never continue the chain; " +
 			"R6 the UDP ceiling computed by SetEdns0 and edns.serveWire lies in [512,1232] for every advertised size, is raised only on the tcp/doq/doh arm, and every UDP write is compared with ResponseWriter.size; " +
 			"R7 constructors that re-attach the request's Extra to a reply (Chain.CancelWithRcode, dnsutil.SetRcode*) are not used by handlers ahead of edns in the default chain, where the request OPT is still unstripped and the writer unshaped.",
 		NotDecided: []string{
